@@ -111,17 +111,24 @@ type Contract struct {
 	Notes        []string
 
 	// resolved
-	Obj         *types.Func
-	RecvName    string
-	Params      []string // names in order: receiver, params
-	Results     []string
-	allCl       []*Clause
-	OwnModifies []string // own-modifies: what the function itself writes, apart from the effects of its callbacks
-	OwnMods     []*ModItem
-	HasOwn      bool
-	CbInvs      map[string][]*Clause // site NAME: callback-invariant ... (kept by the callbacks passed to NAME)
-	SiteAssumes map[string][]*Clause // site NAME: assume ... (about the result of the call; part of a declared assumption)
-	Broken      string               // a clause could not be generated (see the message); the function is reported as not generated
+	Obj             *types.Func
+	RecvName        string
+	Params          []string // names in order: receiver, params
+	Results         []string
+	allCl           []*Clause
+	OwnModifies     []string // own-modifies: what the function itself writes, apart from the effects of its callbacks
+	OwnMods         []*ModItem
+	HasOwn          bool
+	CbInvs          map[string][]*Clause // site NAME: callback-invariant ... (kept by the callbacks passed to NAME)
+	SiteAssumes     map[string][]*Clause // site NAME: assume ... (about the result of the call; part of a declared assumption)
+	CallsOnly       []string             // calls-only T1, T2: the only functions under contract that may be called (directly or from inlined helpers)
+	Delegates       string               // delegates TARGET on EXPR: the body is one call of TARGET, arguments and results passed through
+	DelegateOn      string
+	DelegateFn      string   // synthetic function returning the expected receiver
+	DelegateArgs    []string // explicit expected arguments (default: the function's own parameters in order)
+	DelegateArgFns  []string
+	HasDelegateArgs bool
+	Broken          string // a clause could not be generated (see the message); the function is reported as not generated
 }
 
 // HasProp: the contract is listed for property p, or one of its clauses is labelled with p ([p:label]).
@@ -301,6 +308,28 @@ func parseContractFile(path, pkgDir string, src []byte) (*ContractFile, error) {
 			}
 		case "note":
 			cur.Notes = append(cur.Notes, rest)
+		case "calls-only":
+			for _, it := range splitTop(rest, ',') {
+				if strings.TrimSpace(it) != "" {
+					cur.CallsOnly = append(cur.CallsOnly, strings.TrimSpace(it))
+				}
+			}
+		case "delegates":
+			// delegates TARGET on EXPR
+			if k := strings.Index(rest, " args "); k >= 0 {
+				cur.HasDelegateArgs = true
+				for _, a := range splitTop(rest[k+6:], ',') {
+					if strings.TrimSpace(a) != "" {
+						cur.DelegateArgs = append(cur.DelegateArgs, strings.TrimSpace(a))
+					}
+				}
+				rest = rest[:k]
+			}
+			fs := strings.SplitN(rest, " on ", 2)
+			cur.Delegates = strings.TrimSpace(fs[0])
+			if len(fs) == 2 {
+				cur.DelegateOn = strings.TrimSpace(fs[1])
+			}
 		case "var":
 			fs := strings.SplitN(rest, " ", 2)
 			if len(fs) != 2 {
@@ -936,9 +965,18 @@ func (g *genCtx) generate(cf *ContractFile) (string, error) {
 			cl.FnName = fmt.Sprintf("Zvc_%d_%s_%s", seq, sanitize(c.Target), sanitize(cl.Label))
 			expr, pres := hoist(cl.Expr, "pre")
 			var entries []string
+			entryKw := "entry"
 			if cl.Kind == "invariant" {
 				// entry(E): the value of E when the loop was entered
 				expr, entries = hoist(expr, "entry")
+				for i := range entries {
+					entries[i] = implTransform(entries[i])
+				}
+			}
+			if cl.Kind == "siterequires" {
+				// iter(E): the value of E at the start of the current iteration of the innermost loop under contract
+				entryKw = "iter"
+				expr, entries = hoist(expr, "iter")
 				for i := range entries {
 					entries[i] = implTransform(entries[i])
 				}
@@ -979,7 +1017,7 @@ func (g *genCtx) generate(cf *ContractFile) (string, error) {
 						continue
 					}
 					seenID[id] = true
-					if known[id] || strings.HasPrefix(id, "pre_") || strings.HasPrefix(id, "lp_") || strings.HasPrefix(id, "lpend_") || strings.HasPrefix(id, "entry_") {
+					if known[id] || strings.HasPrefix(id, "pre_") || strings.HasPrefix(id, "lp_") || strings.HasPrefix(id, "lpend_") || strings.HasPrefix(id, "entry_") || strings.HasPrefix(id, "iter_") {
 						continue
 					}
 					if g.pkg.Scope().Lookup(id) != nil || types.Universe.Lookup(id) != nil || cf.Imports[id] != "" {
@@ -1080,7 +1118,7 @@ func (g *genCtx) generate(cf *ContractFile) (string, error) {
 					}
 					fmt.Fprintf(&w, "\treturn func(%s) func(%s) bool {\n\t\t%s\n", plist(l3), plist(l3), use(l3))
 					for i, p := range entries {
-						fmt.Fprintf(&w, "\t\tentry_%d := %s\n", i, p)
+						fmt.Fprintf(&w, "\t\t%s_%d := %s\n", entryKw, i, p)
 					}
 					fmt.Fprintf(&w, "\t\treturn func(%s) bool {\n\t\t\t%s\n\t\t\treturn %s\n\t\t}\n\t}\n}\n", plist(l3), use(l3), expr)
 					break
@@ -1207,6 +1245,20 @@ func (g *genCtx) generate(cf *ContractFile) (string, error) {
 		}
 		if c.Mods, err = genMods(c.Modifies, vars); err != nil {
 			return "", fmt.Errorf("%s:%d: %v", cf.Path, c.Line, err)
+		}
+		if c.DelegateOn != "" {
+			dm, derr := genMods([]string{"(" + c.DelegateOn + ").delegate"}, vars)
+			if derr != nil {
+				return "", fmt.Errorf("%s:%d: %v", cf.Path, c.Line, derr)
+			}
+			c.DelegateFn = dm[0].ArgFns[0]
+		}
+		for _, a := range c.DelegateArgs {
+			dm, derr := genMods([]string{"ghost_delegateArg(" + a + ")"}, vars)
+			if derr != nil {
+				return "", fmt.Errorf("%s:%d: %v", cf.Path, c.Line, derr)
+			}
+			c.DelegateArgFns = append(c.DelegateArgFns, dm[0].ArgFns[0])
 		}
 		if c.OwnMods, err = genMods(c.OwnModifies, vars); err != nil {
 			return "", fmt.Errorf("%s:%d: %v", cf.Path, c.Line, err)
